@@ -272,7 +272,7 @@ mod run {
 
     // ---- clients ---------------------------------------------------------------------------------
     /// result codes: 0 complete, 1 connect refused, 2 closed/reset before any byte of a response,
-    /// 3 response cut short, 4 timed out, 5 other connect error
+    /// 3 response cut short, 4 timed out, 5 other connect error (`local` = errno), 6 connect reset, 7 no local address available
     struct Exchange {
         slow: bool,
         local: u16,
@@ -285,7 +285,17 @@ mod run {
         let addr = SocketAddr::new(IpAddr::V4(Ipv4Addr::LOCALHOST), port);
         let mut s = match StdStream::connect_timeout(&addr, Duration::from_secs(5)) {
             Ok(s) => s,
-            Err(e) => return (0, if e.kind() == std::io::ErrorKind::ConnectionRefused { 1 } else { 5 }),
+            Err(e) => {
+                return (
+                    e.raw_os_error().unwrap_or(0) as u16,
+                    match e.kind() {
+                        std::io::ErrorKind::ConnectionRefused => 1,
+                        std::io::ErrorKind::ConnectionReset => 6,
+                        std::io::ErrorKind::AddrNotAvailable | std::io::ErrorKind::AddrInUse => 7,
+                        _ => 5,
+                    },
+                )
+            }
         };
         let local = s.local_addr().map(|a| a.port()).unwrap_or(0);
         let _ = s.set_read_timeout(Some(timeout));
